@@ -168,16 +168,17 @@ theorem C08_dynamic_comp_lookup (t : Stmt) (hf : FragSD t = true) (hu' : uniqueA
        nonlocals, free variables) = the one `Spec.table t` assigns to the block `fn`.
    It is FALSE of the pinned code in the situations named in `Analysis.ActivityHyp` (each reproduced on the real
    code by the harness and listed in known_findings.d/C08.json): `harmfulLeaks`, `walrusInComp`, `classShadow`,
-   `argAnnotations`, `nonlocalBelow`, `globalBelow`; the Lean counterexample for the parameter leak is
+   `argAnnotations`, `globalBelow` (and, until `Scope.finalize` was repaired to pass on
+   `read − (bound − nonlocals − globals)`, `nonlocalBelow`); the Lean counterexample for the parameter leak is
    `leak_counterexample` below.
    `C08_classes_partial` proves, for the function at the root of every tree of the fragment, the equality of
    parameters, bound locals, declared globals, declared nonlocals and free variables (the root has none on either
    side) under `harmfulLeaks t = []` (the other classes concern the free variables of nested functions or lie
    outside the fragment).
    `C08_classes_nested` extends the first four to every function definition nested in statement position.
-   Missing: the free variables of nested functions (needs the propagation of `read - bound` through nested scopes,
-   where the classes `classShadow`, `nonlocalBelow`, `globalBelow` live); lambdas; comprehensions and annotated
-   parameters. -/
+   The free variables of nested functions (the propagation through nested scopes, where the classes `classShadow`
+   and `globalBelow` live) are the subject of `C08_frees_nested` below.  Missing: lambdas; comprehensions and
+   annotated parameters. -/
 
 /-- **Classification of the root function.**  For every function definition `t` of the fragment on which the
     analysis and Python agree statement by statement (`SpecOkS`), whose nested functions' parameters are all
@@ -419,16 +420,17 @@ theorem C08_classes_nested (i : Nat) (name : String) (ai : Nat) (po ar va ko kd 
 /-- `FreesMatch st root tab d`: for the function definition `d` (at any nesting depth), with `cI` its recorded
     ARGS_AND_BODY scope, `info` the entry of its block in the symbol table and `B` the names CPython makes visible
     to it from the enclosing function-like blocks (class bodies skipped, names declared `global` on the way cut off):
-    * the names the analysis has `d` pass to its enclosing scope — `read − bound`, i.e. `Scope.free_vars` —
-      together with its declared nonlocals, minus its declared globals, are exactly `outerB`: the names CPython
-      resolves outside `d` (free or implicit global in `d`, or in a block nested in `d` that `d` does not supply);
+    * the names the analysis has `d` pass to its enclosing scope when `d`'s scope is finalized — `Scope.passedOn`:
+      `read − (bound − nonlocals − globals)`, the repaired propagation of `Scope.finalize` — minus its declared
+      globals, are exactly `outerB`: the names CPython resolves outside `d` (free or implicit global in `d`, or in
+      a block nested in `d` that `d` does not supply);
     * the free variables CPython gives `d` (`co_freevars`, including those only threaded through for nested
       blocks) are the members of that set that are in `B`; the others are its (or its nested blocks') implicit globals. -/
 def FreesMatch (st : St) (root : Block) (tab : List BlockInfo) : Stmt → Prop
   | .functionDef i name (.arguments ai po ar va ko kd kw df) body decos returns isAsync =>
       ∃ cI info B, st.anno? i .argsAndBodyScope = some cI ∧ info ∈ tab ∧ info.id = i ∧
         (mkDefBlock (.functionDef i name (.arguments ai po ar va ko kd kw df) body decos returns isAsync), B) ∈ ctxBlocks [] root ∧
-        (∀ x, ((x ∈ cI.freeVars.names ∨ x ∈ cI.nonlocals.names) ∧ x ∉ cI.globals.names) ↔
+        (∀ x, (x ∈ cI.passedOn.names ∧ x ∉ cI.globals.names) ↔
               x ∈ outerB (mkDefBlock (.functionDef i name (.arguments ai po ar va ko kd kw df) body decos returns isAsync))) ∧
         (∀ x, x ∈ info.frees ↔
               x ∈ outerB (mkDefBlock (.functionDef i name (.arguments ai po ar va ko kd kw df) body decos returns isAsync)) ∧ x ∈ B)
@@ -437,8 +439,9 @@ def FreesMatch (st : St) (root : Block) (tab : List BlockInfo) : Stmt → Prop
 /-- **Free variables of every function definition, at every nesting depth.**  For every tree of the fragment
     `FragS` on which the decidable predicates of the known deviation classes are empty — no parameter of a
     nested function leaking where it matters (`harmfulLeaks`), no class body shadowing what its methods need
-    (`classShadow`), no `global` / `nonlocal` declaration below a function that does not declare the name
-    itself (`globalBelow`, `nonlocalBelow`); named expressions in comprehensions and parameter annotations are
+    (`classShadow`), no `global` declaration below a function that does not declare the name itself
+    (`globalBelow`; since the repair of `Scope.finalize`, `nonlocal` declarations below need no hypothesis any
+    more: the class `nonlocalBelow` is gone); named expressions in comprehensions and parameter annotations are
     outside `FragS` — and whose `nonlocal` declarations all resolve (`nonlocalsResolve`: otherwise CPython
     rejects the program), *every* function definition nested in statement position anywhere in the tree satisfies
     `FreesMatch`: by induction over the scope tree, through functions, lambdas and class bodies of any depth. -/
@@ -446,7 +449,7 @@ theorem C08_frees_nested (i : Nat) (name : String) (ai : Nat) (po ar va ko kd kw
     (decos returns : List Expr) (t : Stmt)
     (ht : t = .functionDef i name (.arguments ai po ar va ko kd kw df) body decos returns false)
     (hf : FragS t = true) (hs : SpecOkS t = true) (hu' : uniqueAnnos (analyze t).annos = true)
-    (hleak : harmfulLeaks t = []) (hshadow : classShadow t = []) (hgb : globalBelow t = []) (hnb : nonlocalBelow t = [])
+    (hleak : harmfulLeaks t = []) (hshadow : classShadow t = []) (hgb : globalBelow t = [])
     (hnl : nonlocalsResolve t = true) :
     ∀ d ∈ defsS t, FreesMatch (analyze t) (mkDefBlock t) (Spec.table t) d := by
   have hu := unique_of_bool _ hu'
@@ -505,14 +508,6 @@ theorem C08_frees_nested (i : Nat) (name : String) (ai : Nat) (po ar va ko kd kw
     simp only [globalBelow, hblk, Acc.toBlock] at this
     simp only [mkDefBlock, Acc.toBlock, Block.params, Block.binds, Block.globals, Block.nonlocals, ← hnew]
     exact nil_of_dedup _ this
-  have hNroot : declBelowBs false ((mkDefBlock (.functionDef i name (.arguments ai po ar va ko kd kw df) body decos returns false)).params ++
-      (mkDefBlock (.functionDef i name (.arguments ai po ar va ko kd kw df) body decos returns false)).binds ++
-      (mkDefBlock (.functionDef i name (.arguments ai po ar va ko kd kw df) body decos returns false)).globals ++
-      (mkDefBlock (.functionDef i name (.arguments ai po ar va ko kd kw df) body decos returns false)).nonlocals) new = [] := by
-    have := hnb
-    simp only [nonlocalBelow, hblk, Acc.toBlock] at this
-    simp only [mkDefBlock, Acc.toBlock, Block.params, Block.binds, Block.globals, Block.nonlocals, ← hnew]
-    exact nil_of_dedup _ this
   have hSroot : shadowB (mkDefBlock (.functionDef i name (.arguments ai po ar va ko kd kw df) body decos returns false)) = [] := by
     have := hshadow
     simp only [classShadow, hblk] at this
@@ -539,26 +534,19 @@ theorem C08_frees_nested (i : Nat) (name : String) (ai : Nat) (po ar va ko kd kw
            (mkDefBlock (.functionDef i' name' (.arguments ai' po' ar' va' ko' kd' kw' df') body' decos' returns' isAsync')).binds ++
            (mkDefBlock (.functionDef i' name' (.arguments ai' po' ar' va' ko' kd' kw' df') body' decos' returns' isAsync')).globals ++
            (mkDefBlock (.functionDef i' name' (.arguments ai' po' ar' va' ko' kd' kw' df') body' decos' returns' isAsync')).nonlocals)
-          (mkDefBlock (.functionDef i' name' (.arguments ai' po' ar' va' ko' kd' kw' df') body' decos' returns' isAsync')).children = [] ∧
-          declBelowBs false
-          ((mkDefBlock (.functionDef i' name' (.arguments ai' po' ar' va' ko' kd' kw' df') body' decos' returns' isAsync')).params ++
-           (mkDefBlock (.functionDef i' name' (.arguments ai' po' ar' va' ko' kd' kw' df') body' decos' returns' isAsync')).binds ++
-           (mkDefBlock (.functionDef i' name' (.arguments ai' po' ar' va' ko' kd' kw' df') body' decos' returns' isAsync')).globals ++
-           (mkDefBlock (.functionDef i' name' (.arguments ai' po' ar' va' ko' kd' kw' df') body' decos' returns' isAsync')).nonlocals)
           (mkDefBlock (.functionDef i' name' (.arguments ai' po' ar' va' ko' kd' kw' df') body' decos' returns' isAsync')).children = [] := by
         rw [hall] at hmem
         simp only [List.mem_cons] at hmem
         rcases hmem with he | hmem
-        · rw [he, hch]; exact ⟨hLroot, hGroot, hNroot⟩
+        · rw [he, hch]; exact ⟨hLroot, hGroot⟩
         · exact ⟨leakFree_allL new _ hLroot _ hmem (by rw [hkind]; rfl),
-            declBelow_allL true new _ hGroot _ hmem (by rw [hkind]; rfl),
-            declBelow_allL false new _ hNroot _ hmem (by rw [hkind]; rfl)⟩
-      obtain ⟨hLd, hGd, hNd⟩ := hthree
+            declBelow_allL true new _ hGroot _ hmem (by rw [hkind]; rfl)⟩
+      obtain ⟨hLd, hGd⟩ := hthree
       simp only [FragS, Bool.and_eq_true] at hdf
       simp only [SpecOkS] at hds
       obtain ⟨cI, ca, h1, h2, hb, hg, hn, hp, hr⟩ := hok
       have hA := def_outer i' name' ai' po' ar' va' ko' kd' kw' df' body' decos' returns' isAsync' hdf.2 hds cI hb hg hn hr _ rfl
-        hGd hNd hLd hSd
+        hGd hLd hSd
       obtain ⟨info, hinfo, hfacts, hfrees⟩ := table_frees _ 0 [] [] [] hw (fun _ => Iff.rfl) hv _ hctx (by rw [hkind]; rfl)
       refine ⟨cI, info, B, ?_, ?_, ?_, hctx, ?_, hfrees⟩
       · rw [St.anno?, find_of_unique _ hu i' .argsAndBodyScope cI h1]; rfl
@@ -566,7 +554,7 @@ theorem C08_frees_nested (i : Nat) (name : String) (ai : Nat) (po ar va ko kd kw
       · simpa [mkDefBlock, Acc.toBlock, Block.id] using hfacts.1
       · intro x
         rw [← hA x]
-        simp [Scope.freeVars]
+        simp
     | _ => simp [FragS] at hdf
   | _ => trivial
 
@@ -577,7 +565,7 @@ theorem FreesMatch.frees_iff {st : St} {root : Block} {tab : List BlockInfo}
     (h : FreesMatch st root tab (.functionDef i name (.arguments ai po ar va ko kd kw df) body decos returns isAsync)) :
     ∃ cI info B, st.anno? i .argsAndBodyScope = some cI ∧ info ∈ tab ∧ info.id = i ∧
       (mkDefBlock (.functionDef i name (.arguments ai po ar va ko kd kw df) body decos returns isAsync), B) ∈ ctxBlocks [] root ∧
-      ∀ x, x ∈ info.frees ↔ ((x ∈ cI.freeVars.names ∨ x ∈ cI.nonlocals.names) ∧ x ∉ cI.globals.names) ∧ x ∈ B := by
+      ∀ x, x ∈ info.frees ↔ (x ∈ cI.passedOn.names ∧ x ∉ cI.globals.names) ∧ x ∈ B := by
   obtain ⟨cI, info, B, h1, h2, h3, h4, h5, h6⟩ := h
   exact ⟨cI, info, B, h1, h2, h3, h4, fun x => by rw [h6 x, h5 x]⟩
 
@@ -605,16 +593,17 @@ theorem C08_classes_all (i : Nat) (name : String) (ai : Nat) (po ar va ko kd kw 
     (ht : t = .functionDef i name (.arguments ai po ar va ko kd kw df) body decos returns false)
     (hf : FragS t = true) (hs : SpecOkS t = true) (hu' : uniqueAnnos (analyze t).annos = true)
     (hleak : harmfulLeaks t = []) (hd : allDeclsDisjoint t = true)
-    (hshadow : classShadow t = []) (hgb : globalBelow t = []) (hnb : nonlocalBelow t = [])
+    (hshadow : classShadow t = []) (hgb : globalBelow t = [])
     (hnl : nonlocalsResolve t = true) :
     ∀ d ∈ defsS t, DefMatches (analyze t) (Spec.table t) d ∧ FreesMatch (analyze t) (mkDefBlock t) (Spec.table t) d :=
   fun d hd' => ⟨C08_classes_nested i name ai po ar va ko kd kw df body decos returns t ht hf hs hu' hleak hd d hd',
-    C08_frees_nested i name ai po ar va ko kd kw df body decos returns t ht hf hs hu' hleak hshadow hgb hnb hnl d hd'⟩
+    C08_frees_nested i name ai po ar va ko kd kw df body decos returns t ht hf hs hu' hleak hshadow hgb hnl d hd'⟩
 
 /- Full statement `C08_frees` (not a theorem of the pinned tree): the same for every tree, i.e. without the four
    class predicates.  Each of them is necessary: `leak_counterexample` (harmfulLeaks), `shadow_counterexample`
-   (classShadow) below; for `nonlocalBelow` / `globalBelow` see `known_findings.d/C08.json` (C08-nonlocal-passthrough,
-   C08-global-propagates) and their corpus witnesses.
+   (classShadow) below; for `globalBelow` see `known_findings.d/C08.json` (C08-global-propagates) and its corpus
+   witness.  (`nonlocalBelow` was a fourth necessary hypothesis until `Scope.finalize` was repaired to pass on
+   `read − (bound − nonlocals − globals)`; `twoLevelTree` below is the shape that used to fail.)
    Not proved: that `B` (CPython's visible names, `ctxBlocks`) is what `ActivityFn.resolveAct` computes from the
    recorded scopes of the enclosing functions — the last step to `classify`'s `frees` field.  The harness checks that
    step on the real code for every def on which the hypotheses hold (`consistency:C08_frees_nested-on-real-code`). -/
@@ -664,11 +653,11 @@ def deepTree : Stmt :=
 
 /-- the hypotheses of `C08_frees_nested` hold for it … -/
 example : FragS deepTree = true ∧ SpecOkS deepTree = true ∧ uniqueAnnos (analyze deepTree).annos = true ∧
-    harmfulLeaks deepTree = [] ∧ classShadow deepTree = [] ∧ globalBelow deepTree = [] ∧ nonlocalBelow deepTree = [] ∧
+    harmfulLeaks deepTree = [] ∧ classShadow deepTree = [] ∧ globalBelow deepTree = [] ∧
     nonlocalsResolve deepTree = true ∧ (defsS deepTree).length = 3 := by decide
 example : ∀ d ∈ defsS deepTree, FreesMatch (analyze deepTree) (mkDefBlock deepTree) (table deepTree) d :=
   C08_frees_nested _ _ _ _ _ _ _ _ _ _ _ _ _ deepTree rfl (by decide) (by decide) (by decide) (by decide) (by decide)
-    (by decide) (by decide) (by decide)
+    (by decide) (by decide)
 /-- … and the conclusion is not vacuous: `h` (two functions and a class deep) passes `x` and `G` outwards, CPython
     makes `x` its free variable and `G` a global; `m` only threads `x` through; `f` has no free variable. -/
 example : ((classify deepTree (analyze deepTree) 14 [11, 1]).map fun c => (c.freeVars, c.frees)) = some (["G", "x"], ["x"]) := by decide
@@ -676,6 +665,36 @@ example : outerB (mkDefBlock deepTree) = ["G"] := by decide
 example : ((table deepTree).filter (fun b => b.id == 14 || b.id == 11 || b.id == 1)).map (fun b => (b.id, b.frees))
     = [(1, []), (11, ["x"]), (14, ["x"])] := by decide
 example : kind (table deepTree) 14 "G" = .globalImplicit ∧ kind (table deepTree) 11 "x" = .free := by decide
+
+/-- The two-level `nonlocal` (the C01 defect behind the repair of `Scope.finalize`):
+    `def f(c): (if c: x = 10); (def g(c): (def gi(): nonlocal x; x = x + c; return x); return gi()); return g(1)`
+    (the inner parameter is called `c` like the outer one, so that the separate deviation `harmfulLeaks` stays out).
+    `gi` binds `x` (it assigns it) and declares it nonlocal; with `read − bound` the read of `x` never reached `g`. -/
+def twoLevelTree : Stmt :=
+  .functionDef 1 "f" (.arguments 2 [] [.arg 3 "c" []] [] [] [] [] [])
+    [ .if_ 4 (.name 5 "c" .load) [.assign 6 [.name 7 "x" .store] (.const 8 "int" "10")] [],
+      .functionDef 9 "g" (.arguments 10 [] [.arg 11 "c" []] [] [] [] [] [])
+        [ .functionDef 12 "gi" (.arguments 13 [] [] [] [] [] [] [])
+            [ .nonlocal 14 ["x"],
+              .assign 15 [.name 16 "x" .store] (.binop 17 "Add" (.name 18 "x" .load) (.name 19 "c" .load)),
+              .ret 20 [.name 21 "x" .load] ] [] [] false,
+          .ret 22 [.call 23 (.name 24 "gi" .load) [] []] ] [] [] false,
+      .ret 25 [.call 26 (.name 27 "g" .load) [.const 28 "int" "1"] []] ] [] [] false
+
+/-- the hypotheses of `C08_frees_nested` hold (the former class `nonlocalBelow` is *not* empty here) … -/
+example : FragS twoLevelTree = true ∧ SpecOkS twoLevelTree = true ∧ uniqueAnnos (analyze twoLevelTree).annos = true ∧
+    harmfulLeaks twoLevelTree = [] ∧ classShadow twoLevelTree = [] ∧ globalBelow twoLevelTree = [] ∧
+    nonlocalsResolve twoLevelTree = true ∧ nonlocalBelow twoLevelTree = ["x"] := by decide
+example : ∀ d ∈ defsS twoLevelTree, FreesMatch (analyze twoLevelTree) (mkDefBlock twoLevelTree) (table twoLevelTree) d :=
+  C08_frees_nested _ _ _ _ _ _ _ _ _ _ _ _ _ twoLevelTree rfl (by decide) (by decide) (by decide) (by decide) (by decide)
+    (by decide) (by decide)
+/-- … and `g` now reads `x`: its recorded scope passes `x` on, it is `g`'s free variable for the analysis and for CPython. -/
+example : ((analyze twoLevelTree).anno? 9 .argsAndBodyScope).map (fun c => (c.read.contains (.sym "x"), c.passedOn.names))
+    = some (true, ["x"]) := by decide
+example : ((classify twoLevelTree (analyze twoLevelTree) 9 [1]).map fun c => c.frees) = some ["x"] ∧
+    ((classify twoLevelTree (analyze twoLevelTree) 12 [9, 1]).map fun c => c.frees) = some ["c", "x"] := by decide
+example : ((table twoLevelTree).filter (fun b => b.id == 9 || b.id == 12)).map (fun b => (b.id, b.frees))
+    = [(9, ["x"]), (12, ["x", "c"])] := by decide
 
 /-- `def f(): x = 1; (def g(): (class K: x = 2; def m(): return x); return K); return g` — the class body binds
     `x`, so the analysis drops `m`'s read of `x` at the class; Python threads `x` from `f` through `g` to `m`. -/
